@@ -54,6 +54,7 @@ package services
 //@   physical limOK(s.limiter) && stored(s.limiter) && 0 <= conn.written && conn.written < 1<<49 && 0 <= totalgrants && totalgrants < 1<<49 && 0 <= nsends && nsends < 1<<48 && 0 <= nlines && nlines < 1<<48
 //@   requires conn != nil && conn.bufreaders == 0
 //@   callpre (*Limiter).Allow: ip == raddr(conn)
+//@   callpre event.Payload: len(data) == ite(caller.v < 80, caller.v, 80)
 //@   ensures [amp] isUDP(conn) ==> conn.written - old(conn.written) <= totalgrants - old(totalgrants)
 //@   ensures [one-reader] conn.bufreaders == 1
 //@   ensures [event-per-line] nlines - old(nlines) <= nsends - old(nsends)
